@@ -1050,6 +1050,8 @@ func replay(c *vh.Ctx, m *vh.Model, file string) {
 			c.Fatal("cannot build protocol manager: %v", err)
 		}
 		queueDeliveries(c, m, pm)
+	case "disc-reason", "base-msg", "protohandshake":
+		baseProtocolProbes(c, m, c.Rng.Fork())
 	case "frame-lifetime":
 		replayLifetime(c, m, rp)
 	case "discover-lifetime":
